@@ -108,6 +108,21 @@ def run(pid, tier, seed, replay):
                 out.violation(T.replay_of(pid, r, {"case": case, "step": step, "detail": detail},
                                           {"broken": "correspondence connection model/implementation",
                                            "theorems_no_longer_about_the_code": pf["theorems"]}), nofail=not verdicts)
+        if pid == "C09" and not replay:
+            # WATCH against a concurrent client, forced through the schedule points of tx.go: the other connection's write lands after
+            # EXEC has examined the watch flags and before the queued command runs
+            rc, o = C.sh([C.VH, "execiso", "watch"], env=C.go_env(), timeout=60)
+            line = next((l for l in o.splitlines() if l.startswith("EXECISO")), "")
+            f = dict(x.split("=", 1) for x in line.split()[1:] if "=" in x)
+            stats["execiso_watch"] = line
+            if f.get("a", "").startswith("A1_") and f.get("final") == "B32":
+                v = {"signature": "EXEC/watch-race", "text": "WATCH x ; GET x (1) ; MULTI ; SET x 2 ; EXEC ran and x = 2 although another connection's SET x 5 was acknowledged in between (" + line + ")"}
+                if v["signature"] in known:
+                    confirmed.setdefault(v["signature"], v)
+                else:
+                    out.violation({"property": pid, "signature": v["signature"], "what": v["text"], "replay_cmd": ".cache/bin/vh execiso watch"})
+            elif not line or f.get("a") in (None, "TIMEOUT"):
+                out.violation({"property": pid, "broken": "vh execiso watch produced no verdict", "detail": o[-500:]}, nofail=True)
         if pid == "C08" and not replay:
             # isolation against a concurrent client, forced through the schedule points of tx.go: another connection's SET is run
             # between the two queued INCRs of an EXEC
